@@ -115,4 +115,158 @@ def scanStr (text : Str) : Except JErr (Str × Str) :=
   | '"' :: t => scanString (t.length + 1) t []
   | _ => .error .unterminated
 
+/-! ### documents: `json.dumps(book, ensure_ascii=False, indent=2)` and `json.loads`
+
+Values are strings, arrays and objects (what a workbook needs); numbers, `true`, `false`, `null`,
+`NaN` … make the model answer `unsupported` (the tie skips them).  An object is the list of its
+members in order (a Python dict).  The mutual inductive (instead of `List`) keeps every function
+structurally recursive and kernel-reducible.
+
+* writer: `_make_iterencode` with `indent=2`: `[]` / `{}` for empty containers, otherwise one
+  element per line indented by two spaces per level, `,` at the line end, `": "` after a key.
+* reader: `scan_once_unicode`, `_parse_object_unicode`, `_parse_array_unicode` of `_json.c`
+  (whitespace = space, tab, LF, CR is skipped around every token; a later duplicate key replaces
+  the value of the earlier one in place: `PyDict_SetItem`), `JSONDecoder.decode` (leading /
+  trailing whitespace, "Extra data"), `json.loads` (a leading U+FEFF is refused).
+  `fuel` makes the mutual recursion structural: two units per character are always enough; the
+  interpreter's recursion limit (≈1000 nested containers) is NOT modelled.
+-/
+
+mutual
+inductive JV
+  | str (s : Str)
+  | arr (xs : JVs)
+  | obj (ms : JMs)
+inductive JVs
+  | nil
+  | cons (x : JV) (xs : JVs)
+inductive JMs
+  | nil
+  | cons (k : Str) (v : JV) (ms : JMs)
+end
+
+deriving instance DecidableEq for JV, JVs, JMs
+deriving instance Repr for JV, JVs, JMs
+
+def nl (lvl : Nat) : Str := '\n' :: List.replicate (2 * lvl) ' '
+
+mutual
+def dumpValue (lvl : Nat) : JV → Str
+  | .str s => encodeString s
+  | .arr .nil => ['[', ']']
+  | .arr xs => '[' :: (nl (lvl + 1) ++ dumpElems (lvl + 1) xs ++ nl lvl ++ [']'])
+  | .obj .nil => ['{', '}']
+  | .obj ms => '{' :: (nl (lvl + 1) ++ dumpMembers (lvl + 1) ms ++ nl lvl ++ ['}'])
+def dumpElems (lvl : Nat) : JVs → Str
+  | .nil => []
+  | .cons x .nil => dumpValue lvl x
+  | .cons x xs => dumpValue lvl x ++ ',' :: (nl lvl ++ dumpElems lvl xs)
+def dumpMembers (lvl : Nat) : JMs → Str
+  | .nil => []
+  | .cons k v .nil => encodeString k ++ ':' :: ' ' :: dumpValue lvl v
+  | .cons k v ms => encodeString k ++ ':' :: ' ' :: (dumpValue lvl v ++ ',' :: (nl lvl ++ dumpMembers lvl ms))
+end
+
+/-! reader -/
+
+inductive DErr
+  | str (e : JErr)            -- from the string scanner
+  | expectingValue | expectingPropertyName | expectingColon | expectingComma | extraData | bom
+  | unsupported               -- numbers / true / false / null / NaN: outside the model
+  | fuel
+deriving DecidableEq, Repr
+
+/-- `WHITESPACE = [ \t\n\r]*` -/
+def isWs (c : Char) : Bool := c == ' ' || c == '\t' || c == '\n' || c == '\r'
+def skipWs (s : Str) : Str := s.dropWhile isWs
+
+/-- `dict[k] = v` on the pairs collected so far (insertion-ordered dict) -/
+def jmInsert (k : Str) (v : JV) : JMs → JMs
+  | .nil => .cons k v .nil
+  | .cons k' v' ms => if k' = k then .cons k v ms else .cons k' v' (jmInsert k v ms)
+
+def jvsSnoc : JVs → JV → JVs
+  | .nil, v => .cons v .nil
+  | .cons x xs, v => .cons x (jvsSnoc xs v)
+
+/-- first characters of values the model does not cover (`scan_once_unicode`'s other cases) -/
+def otherValueStart (c : Char) : Bool :=
+  c == 'n' || c == 't' || c == 'f' || c == 'N' || c == 'I' || c == '-' || ('0' ≤ c && c ≤ '9')
+
+mutual
+/-- `scan_once_unicode` -/
+def parseValue : Nat → Str → Except DErr (JV × Str)
+  | 0, _ => .error .fuel
+  | _ + 1, [] => .error .expectingValue
+  | f + 1, c :: t =>
+    if c = '"' then
+      match scanString (t.length + 1) t [] with
+      | .ok (v, r) => .ok (.str v, r)
+      | .error e => .error (.str e)
+    else if c = '{' then
+      match skipWs t with
+      | [] => .error .expectingPropertyName
+      | c2 :: t2 =>
+        if c2 = '}' then .ok (.obj .nil, t2)
+        else parseMembers f (c2 :: t2) .nil
+    else if c = '[' then
+      match skipWs t with
+      | [] => .error .expectingValue
+      | c2 :: t2 =>
+        if c2 = ']' then .ok (.arr .nil, t2)
+        else parseElems f (c2 :: t2) .nil
+    else if otherValueStart c then .error .unsupported
+    else .error .expectingValue
+/-- the member loop of `_parse_object_unicode`; `s` is at the key -/
+def parseMembers : Nat → Str → JMs → Except DErr (JV × Str)
+  | 0, _, _ => .error .fuel
+  | f + 1, s, acc =>
+    match s with
+    | [] => .error .expectingPropertyName
+    | q :: s1 =>
+      if q ≠ '"' then .error .expectingPropertyName
+      else
+        match scanString (s1.length + 1) s1 [] with
+        | .error e => .error (.str e)
+        | .ok (k, r) =>
+          match skipWs r with
+          | [] => .error .expectingColon
+          | c :: r1 =>
+            if c ≠ ':' then .error .expectingColon
+            else
+              match parseValue f (skipWs r1) with
+              | .error e => .error e
+              | .ok (v, r2) =>
+                match skipWs r2 with
+                | [] => .error .expectingComma
+                | c2 :: r3 =>
+                  if c2 = '}' then .ok (.obj (jmInsert k v acc), r3)
+                  else if c2 = ',' then parseMembers f (skipWs r3) (jmInsert k v acc)
+                  else .error .expectingComma
+/-- the element loop of `_parse_array_unicode`; `s` is at the value -/
+def parseElems : Nat → Str → JVs → Except DErr (JV × Str)
+  | 0, _, _ => .error .fuel
+  | f + 1, s, acc =>
+    match parseValue f s with
+    | .error e => .error e
+    | .ok (v, r) =>
+      match skipWs r with
+      | [] => .error .expectingComma
+      | c :: r1 =>
+        if c = ']' then .ok (.arr (jvsSnoc acc v), r1)
+        else if c = ',' then parseElems f (skipWs r1) (jvsSnoc acc v)
+        else .error .expectingComma
+end
+
+/-- `json.loads(text)` (`JSONDecoder.decode`): optional whitespace, one value, optional whitespace -/
+def loads (text : Str) : Except DErr JV :=
+  match text with
+  | '﻿' :: _ => .error .bom
+  | _ =>
+    match parseValue (2 * text.length + 2) (skipWs text) with
+    | .error e => .error e
+    | .ok (v, r) => if (skipWs r).isEmpty then .ok v else .error .extraData
+
+def dumps (v : JV) : Str := dumpValue 0 v
+
 end Rpft.JsonText
